@@ -119,8 +119,10 @@ class PyModel:
             ref = L.simp(Val.oref(obj))
             cls = ex.class_of(obj)
             if cls is None:
-                raise Unsupported('attribute %s on object of unknown class' % attr)
+                return self.stubs.unknown_call(ex, 'attribute %s of an object of unknown class' % attr, [obj])
             if cls in self.src.classes and self.src.find_method(cls, attr) is not None:
+                return BoundMethod(obj, attr)
+            if cls not in self.src.classes and hasattr(self.stubs, 'e_%s_%s' % (cls, attr)):
                 return BoundMethod(obj, attr)
             v = ex.known(ex.get_field(ref, attr))
             ty = self.engine.shapes.field_ty(cls, attr)
@@ -264,7 +266,7 @@ class PyModel:
         if ex.branch(L.is_Obj(obj), 'getitem-obj'):
             cls = ex.class_of(obj)
             if cls is None:
-                raise Unsupported('subscript on object of unknown class')
+                return self.stubs.unknown_call(ex, 'subscript of an object of unknown class', [obj, key])
             return self.engine.calls.call_method(ex, obj, '__getitem__', [key], {})
         if ex.branch(z3.Or(L.is_List(obj), L.is_Tuple(obj)), 'getitem-seq'):
             r = self.seq_ref_b(ex, obj)
@@ -351,7 +353,8 @@ class PyModel:
         if ex.branch(L.is_Obj(obj), 'setitem-obj'):
             cls = ex.class_of(obj)
             if cls is None:
-                raise Unsupported('subscript store on object of unknown class')
+                self.stubs.unknown_call(ex, 'subscript store on an object of unknown class', [obj, key, val])
+                return
             self.engine.calls.call_method(ex, obj, '__setitem__', [key, val], {})
             return
         if ex.branch(L.is_List(obj), 'setitem-list'):
